@@ -73,20 +73,20 @@ theorem monoAt_succ {n m : Nat} (ih : MonoAt env n m) : MonoAt env (n + 1) (m + 
     · simp only [readFields]; exact Outcome.le_refl _
     · rcases ts with _ | ⟨t, ts⟩
       · simp only [readFields]; exact Outcome.le_refl _
-      · cases t <;> simp only [readFields, Outcome.bind_eq, Outcome.pure_eq] <;> mono_tac
+      · cases t <;> simp only [readFields, Outcome.bind_eq] <;> mono_tac
   · intro item bs acc
     simp only [readArrayBlocks, Outcome.bind_eq, Outcome.pure_eq]; mono_tac
   · intro item k bs acc
-    cases k <;> simp only [readItems, Outcome.bind_eq, Outcome.pure_eq] <;> mono_tac
+    cases k <;> simp only [readItems, Outcome.bind_eq] <;> mono_tac
   · intro val bs ks vs
     simp only [readMapBlocks, Outcome.bind_eq, Outcome.pure_eq]; mono_tac
   · intro val k bs ks vs
-    cases k <;> simp only [readMapItems, Outcome.bind_eq, Outcome.pure_eq] <;> mono_tac
+    cases k <;> simp only [readMapItems, Outcome.bind_eq] <;> mono_tac
   · intro c bs
     cases c <;> simp only [skip, Outcome.bind_eq, Outcome.pure_eq]
     all_goals mono_tac
   · intro cs bs
-    cases cs <;> simp only [skipFields, Outcome.bind_eq, Outcome.pure_eq] <;> mono_tac
+    cases cs <;> simp only [skipFields, Outcome.bind_eq] <;> mono_tac
   · intro keyed item bs
     simp only [skipBlocks, Outcome.bind_eq, Outcome.pure_eq]; mono_tac
   · intro keyed item k bs
